@@ -101,6 +101,17 @@ fn host_to_ascii(host: &str) -> Option<Cow<str>> {
     idna::domain_to_ascii(host).ok().map(Cow::from)
 }
 
+/// Whether `rp_id` is equal to `host` or is a suffix of it which begins at a label boundary.
+fn is_equal_or_label_suffix(host: &str, rp_id: &str) -> bool {
+    host.strip_suffix(rp_id)
+        .is_some_and(|rest| rest.is_empty() || rest.ends_with('.'))
+}
+
+/// Whether the domain name has an empty label, which no valid RP ID has.
+fn has_empty_label(domain: &str) -> bool {
+    domain.split('.').any(str::is_empty)
+}
+
 /// The origin of a WebAuthn request.
 pub enum Origin<'a> {
     /// A Url, meant for a request in the web browser.
@@ -531,7 +542,10 @@ where
         let mut effective_domain = origin.domain().ok_or(WebauthnError::OriginMissingDomain)?;
 
         if let Some(rp_id) = rp_id {
-            if !effective_domain.ends_with(rp_id) {
+            if has_empty_label(rp_id) {
+                return Err(WebauthnError::InvalidRpId);
+            }
+            if !is_equal_or_label_suffix(effective_domain, rp_id) {
                 return Err(WebauthnError::OriginRpMissmatch);
             }
 
@@ -603,7 +617,10 @@ where
 
         if let Some(rp_id) = rp_id {
             // subset from assert_web_rp_id
-            if !effective_rp_id.ends_with(rp_id) {
+            if has_empty_label(rp_id) {
+                return Err(WebauthnError::InvalidRpId);
+            }
+            if !is_equal_or_label_suffix(effective_rp_id, rp_id) {
                 return Err(WebauthnError::OriginRpMissmatch);
             }
             effective_rp_id = rp_id;
